@@ -81,6 +81,23 @@ type ModelField struct {
 	PkgPath                string
 }
 
+// SweepDecl: verify the safety obligations of every function defined in the named files
+type SweepDecl struct {
+	Prop    string
+	PkgPath string
+	Files   []string // base names; "*" = all
+	Except  []string // base names or function display keys
+}
+
+// TypeInv: representation invariant of a struct type, assumed at method entry (receiver) and after
+// successful type assertions, checked where a pointer to the type is published (boxed in an interface or returned)
+type TypeInv struct {
+	Type, Text string
+	PkgPath    string
+	File       string
+	Line       int
+}
+
 type AxiomDecl struct {
 	Name    string
 	Text    string // raw smt
@@ -97,6 +114,8 @@ type ContractSet struct {
 	Axioms []*AxiomDecl
 	Models []*ModelField
 	Monotone []string
+	Sweeps []*SweepDecl
+	TypeInvs []*TypeInv
 	Files  []string
 }
 
@@ -197,6 +216,36 @@ func parseContractSource(cs *ContractSet, file, src, pkgPath string) error {
 			ax := &AxiomDecl{Name: strings.TrimSpace(parts[0]), Text: strings.TrimSpace(parts[1]), PkgPath: pkgPath, File: rl.file, Line: rl.line, Lemma: word == "lemma"}
 			cs.Axioms = append(cs.Axioms, ax)
 			lastAxiom = ax
+			cur = nil
+		case "sweep":
+			// sweep Cxx file1.go file2.go except a.go (*T).M
+			f := strings.Fields(rest)
+			if len(f) < 2 {
+				return fmt.Errorf("%s:%d: sweep <prop> <files...> [except ...]", rl.file, rl.line)
+			}
+			sw := &SweepDecl{Prop: f[0], PkgPath: pkgPath}
+			ex := false
+			for _, w := range f[1:] {
+				if w == "except" {
+					ex = true
+					continue
+				}
+				if ex {
+					sw.Except = append(sw.Except, w)
+				} else {
+					sw.Files = append(sw.Files, w)
+				}
+			}
+			cs.Sweeps = append(cs.Sweeps, sw)
+			cur = nil
+		case "typeinv":
+			parts := strings.SplitN(rest, ":", 2)
+			if len(parts) != 2 {
+				return fmt.Errorf("%s:%d: typeinv T: expr", rl.file, rl.line)
+			}
+			ti := &TypeInv{Type: strings.TrimSpace(parts[0]), Text: strings.TrimSpace(parts[1]), PkgPath: pkgPath, File: rl.file, Line: rl.line}
+			cs.TypeInvs = append(cs.TypeInvs, ti)
+			lastClause = nil
 			cur = nil
 		case "ifacedefault":
 			// ifacedefault Iface : every method of the interface without its own contract gets the clauses that follow
